@@ -4,7 +4,7 @@ from __future__ import annotations
 
 import ast
 
-from sa.core import AnalysisError, Report, loc, norm_src
+from sa.core import inlined_src, canon_locals, canon_src, AnalysisError, Report, loc, norm_src
 from sa.consteval import ev, NOTIMPL, NameRef, Opaque
 from sa import tmpl
 from sa.tmpl import TemplateError
@@ -14,7 +14,7 @@ from sa.targets_model import (
 )
 from sa.oracles import targets as O
 from sa.paths import enumerate_paths, calls_in, call_name, dotted, event_has_call
-from sa.defuse import origins
+from sa.defuse import origins, last_def
 
 LANG = dict(python="python", numpy="python", cpp="clike", xla_client="clike")
 OPS = dict(python=O.PY_OPS, numpy=O.PY_OPS, cpp=O.C_OPS, xla_client=O.C_OPS)
@@ -250,7 +250,9 @@ def check_make_constant(r, T, typed_required, rule="R5.7"):
             continue
         og = origins(p.exit_node.value, p.events, len(p.events))
         typed = any(k == "name" and v == like for k, v in og)
-        key = f"{T.rel}::Printer.make_constant path {p.describe().split('->')[0].strip()}"
+        cn = canon_locals(f)
+        conds = " & ".join(("" if e.pol else "not ") + canon_src(e.node, cn) for e in p.events if e.kind == "test")
+        key = f"{T.rel}::Printer.make_constant path [{conds}]"
         if not typed_required:
             r.info(rule, f"{T.rel}: literals are untyped by design of the target language (dynamic typing, true division)")
             return
@@ -315,9 +317,11 @@ def check_printer_base(r, repo):
     if n_assign_paths == 0 and not any(o["rule"] == "R5.8" and not o["ok"] for o in r.obligations):
         raise AnalysisError("PrinterBase.tostring: no assignment path recognised")
     # R5.10 template application: operands forwarded in order, unsliced
-    fmt_calls = [c for c in calls_in(f) if isinstance(c.func, ast.Attribute) and c.func.attr == "format" and dotted(c.func.value) == "tmpl"]
+    # the operator template is the local looked up in self.kind_to_target by expr.kind, whatever it is called
+    fmt_calls = [c for c in calls_in(f) if isinstance(c.func, ast.Attribute) and c.func.attr == "format"
+                 and inlined_src(c.func.value, f).replace(" ", "").startswith("self.kind_to_target.get(expr.kind")]
     if len(fmt_calls) != 1:
-        raise AnalysisError(f"PrinterBase.tostring: expected one tmpl.format call, found {len(fmt_calls)}")
+        raise AnalysisError(f"PrinterBase.tostring: expected one format call on the kind_to_target template, found {len(fmt_calls)}")
     c = fmt_calls[0]
     ok = False
     detail = "operands are not forwarded as `*[self.tostring(op) for op in expr.operands]`"
@@ -638,6 +642,7 @@ def _adds_defined(st, var):
 def check_make_ref(r, repo):
     rel = "expr.py"
     f = repo.func(rel, "make_ref")
+    cn = canon_locals(f)
     n = 0
     for p in enumerate_paths(f):
         if p.exit != "return":
@@ -646,17 +651,21 @@ def check_make_ref(r, repo):
         og = origins(p.exit_node.value, p.events, len(p.events))
         registered = any(k == "call" and v.endswith("_register_reference") for k, v in og)
         existing = False
-        for e in p.events:
+        for i_e, e in enumerate(p.events):
             if e.kind == "test" and e.pol and isinstance(e.node, ast.Call) and dotted(e.node.func) == "isinstance":
                 a = e.node.args
-                if len(a) == 2 and dotted(a[0]) == "ref" and dotted(a[1]) == "str":
-                    existing = True
+                if len(a) == 2 and isinstance(a[0], ast.Name) and dotted(a[1]) == "str":
+                    # the tested value is the expression's stored reference: expr.props.get("ref", ...)
+                    ld = last_def(a[0].id, p.events, i_e)
+                    src = norm_src(ld[1]).replace("'", '"') if ld else ""
+                    if src.startswith('expr.props.get("ref"') or src == 'expr.props["ref"]':
+                        existing = True
         fresh = any(k in ("const",) or (k == "call" and v in ("make_ref", "toidentifier", "map", "list")) for k, v in og) or not existing
         ok = registered or existing
         key = f"expr.py::make_ref exit `{norm_src(p.exit_node)}` under [{' & '.join(('' if e.pol else 'not ') + norm_src(e.node) for e in p.events if e.kind == 'test')[-110:]}]"
         r.ob(
             "R5.9",
-            f"expr.py::make_ref exit `{norm_src(p.exit_node)}`" + ("" if ok else f" guarded by `{_last_test(p)}`"),
+            f"expr.py::make_ref exit `{canon_src(p.exit_node, cn)}`" + ("" if ok else f" guarded by `{_last_test(p, cn)}`"),
             ok,
             "a freshly generated reference name leaves make_ref without passing through Context._register_reference, so nothing "
             "checks that another expression does not already own the same name",
@@ -719,12 +728,12 @@ def check_make_ref(r, repo):
                     r.ob("R5.9", f"{rel2} writer of props['ref'] ({_fn(node)})", ok, "props['ref'] set outside Context._register_reference", loc(rel2, node))
 
 
-def _last_test(p):
+def _last_test(p, cn=None):
     ts = [e for e in p.events if e.kind == "test"]
     if not ts:
         return "true"
     e = ts[-1]
-    return ("" if e.pol else "not ") + norm_src(e.node)
+    return ("" if e.pol else "not ") + (canon_src(e.node, cn) if cn else norm_src(e.node))
 
 
 def _stored_key_was_free(p, i_store, keyname):
